@@ -44,6 +44,8 @@ type LiveWorld struct {
 
 func tag(v, e int) int { return v*1000 + e }
 
+const bulkN = 90
+
 func (w *LiveWorld) ent(id int) *LEnt {
 	for i := range w.Ents {
 		if w.Ents[i].ID == id {
@@ -63,6 +65,8 @@ func (e *LEnt) name() string {
 		return fmt.Sprintf("I%d", e.ID)
 	case "zvar":
 		return fmt.Sprintf("Z%d", e.ID)
+	case "bulk":
+		return fmt.Sprintf("BK%d", e.ID)
 	}
 	return fmt.Sprintf("F%d", e.ID)
 }
@@ -84,6 +88,15 @@ func (w *LiveWorld) EntLine(e *LEnt, v int) string {
 			return fmt.Sprintf("var %s int = %d%s", e.name(), t, trailer) // typed declaration with initialiser
 		}
 		return fmt.Sprintf("var %s = %d%s", e.name(), t, trailer)
+	}
+	if e.Kind == "bulk" {
+		// many string literals that are new in every version: each is a new key of the
+		// VM's table of globals, so a reload makes that table grow
+		var lits []string
+		for i := 0; i < bulkN; i++ {
+			lits = append(lits, fmt.Sprintf("\"b%dv%dn%d\"", e.ID, v, i))
+		}
+		return fmt.Sprintf("var %s = []string{%s}%s", e.name(), strings.Join(lits, ", "), trailer)
 	}
 	if e.Kind == "zvar" {
 		// initialised to zero in every version: a reload must bring it back to 0
@@ -222,6 +235,8 @@ func (w *LiveWorld) Infra(pkg int) string {
 			ln("\thost.Obs(\"iv\", %d, %s)", e.ID, w.ref(e, 0))
 		case "zvar":
 			ln("\thost.Obs(\"zv\", %d, %s)", e.ID, w.ref(e, 0))
+		case "bulk":
+			ln("\thost.Obs(\"bk\", %d, len(%s))", e.ID, w.ref(e, 0))
 		case "method":
 			ln("\tif P%d != nil { host.Obs(\"im\", %d, P%d.%s()) }", e.Recv, e.ID, e.Recv, e.name())
 		}
@@ -246,7 +261,28 @@ func (w *LiveWorld) Infra(pkg int) string {
 	}
 	ln("\thost.Obs(\"end\", 0, 0)")
 	ln("}")
-	ln("func main() { for i := 0; i < %d; i++ { probe(); time.Sleep(100000000) } }", w.Loops)
+	// main itself reads package variables after each yield: an activation that was suspended
+	// while a reload landed must see the variables' current values too
+	ln("func main() {")
+	ln("\tfor i := 0; i < %d; i++ {", w.Loops)
+	ln("\t\tprobe()")
+	ln("\t\ttime.Sleep(100000000)")
+	ln("\t\thost.Obs(\"st\", 0, S)")
+	ln("\t\thost.Obs(\"sa\", 0, SA)")
+	for i := range w.Ents {
+		e := &w.Ents[i]
+		if e.Pkg != 0 {
+			continue
+		}
+		switch e.Kind {
+		case "ivar":
+			ln("\t\thost.Obs(\"iv\", %d, %s)", e.ID, e.name())
+		case "zvar":
+			ln("\t\thost.Obs(\"zv\", %d, %s)", e.ID, e.name())
+		}
+	}
+	ln("\t}")
+	ln("}")
 	ln("func sorted() { arr := []int{3, 1, 2, 5, 4}; slices.SortFunc(arr, func(a, b int) bool { time.Sleep(1000000); return a < b }); probe() }")
 	ln("func init() { N = N + 1; time.Sleep(1000) }")
 	return b.String()
@@ -329,6 +365,10 @@ func GenLiveWorld(r *core.PRNG) *LiveWorld {
 			id++
 			w.Ents = append(w.Ents, LEnt{ID: id, Kind: "ivar", Pkg: p, File: r.Intn(w.Pkgs[p].NFiles), Tmpl: r.Intn(4)})
 		}
+	}
+	if r.Chance(1, 3) {
+		id++
+		w.Ents = append(w.Ents, LEnt{ID: id, Kind: "bulk", Pkg: r.Intn(np), File: 0})
 	}
 	if r.Bool() {
 		id++
